@@ -1,6 +1,7 @@
 //! vp-store: workloads on the real `sierradb::Database`
 //! (C01 C02 C03 C04 C05 C06 C15 C16 C19 C20).
 
+mod c03;
 mod history;
 mod hooks;
 mod store;
@@ -15,6 +16,7 @@ fn main() {
     hooks::install();
     match args.prop.as_str() {
         "C01" | "C02" => history::run(&args, &mut rep),
+        "C03" => c03::run(&args, &mut rep),
         p => rep.inconclusive(format!("vp-store does not serve {p}")),
     }
     if hooks::pause_timeouts() > 0 {
